@@ -1533,6 +1533,17 @@ def gen_c16(ctx):
              'vals': 'generic', 'dom': rng.choice(['row', 'col']), 'np': rng.choice([1, 2, 4]), 'ord': rng.choice([2, 2, 2, 0]), 'w': rng.choice([1, 2, 4, 8]), 'relax': relax,
              'maxsup': max(relax, rng.choice([8, 24])), 'rowblk': 200, 'colblk': 100, 'symm': 1, 'u': 0.0, 'expect_diag': 1}
         out.append(({'variant': 'asan' if i % 3 == 0 else 'plain', 'prec': pv[i]}, c))
+    # circulant-like unsymmetric structure: every row holds as many entries as the column of the same index (one-sided stencil
+    # on a periodic ring coupled to a symmetric chain); nothing is one-sided near a border, unlike bands / arrows / random patterns
+    NR = 300 if ctx.quick else 4000
+    pv = spread(rng, NR)
+    for i in range(NR):
+        n = rng.choice([6, 8, 12, 20, 30, 44, 60])
+        c = {'cmd': 'gstrf', 'fam': 'ring', 'n': n, 'chainlen': rng.choice([0, n // 2, n // 3, 2]), 'ringk': rng.choice([2, 2, 3, 5]), 'seed': rng.randrange(1, 1 << 30),
+             'vals': rng.choice(['generic', 'int']), 'dom': rng.choice(['row', 'col']), 'np': rng.choice([1, 2, 4]), 'ord': rng.choice([2, 2, 2, 0]), 'w': rng.choice([1, 2, 4, 8]),
+             'relax': rng.choice([1, 1, 2, 6]), 'rowblk': 200, 'colblk': 100, 'symm': 1, 'u': 0.0, 'expect_diag': 1}
+        c['maxsup'] = max(c['relax'], rng.choice([4, 8, 24]))
+        out.append(({'variant': 'asan' if i % 3 == 0 else 'plain', 'prec': pv[i]}, c))
     # through the expert driver as EXAMPLE/p?linsolx2.c does
     M = 400 if ctx.quick else 6000
     for i in range(M):
